@@ -12,9 +12,17 @@ META = {
 
 
 def run(ctx, replay_ids=None):
+    # histories (the embedder mutates its declaration maps in place and builds again) are model-checked on a reduced
+    # universe - one package, functions A B C - because the product with the full configuration space is too large
+    wh = ctx.stage("mc_hist", ["confine"])
+    rig.write_cfg(wh / "MC_Confine.cfg", spec="Spec",
+                  constants={"MaxBuilds": 2, "Pkgs": {"p1"}, "Fns": {"A", "B", "C"}, "Decl": "<-MCDeclHist"},
+                  invariants=["OnlySupplied", "ErrorIffUnresolved", "RunsOnlyIfResolved"])
+    rh = ctx.tlc(wh, "MC_Confine", workers=8, timeout=900, must_pass=True)
+    ctx.cov["history_model_states"] = rh.distinct
     return rig.functional(
         ctx, fams=["confine"], mc_module="MC_Confine",
-        mc_consts={"MaxBuilds": 2, "Pkgs": "<-MCPkgs", "Fns": "<-MCFns", "Decl": "<-MCDecl"},
+        mc_consts={"MaxBuilds": 1, "Pkgs": "<-MCPkgs", "Fns": "<-MCFns", "Decl": "<-MCDecl"},
         mc_invs=["OnlySupplied", "ErrorIffUnresolved", "RunsOnlyIfResolved"],
         sub="c19", trace_module="Trace_Confine",
         case_from_obs=lambda o: {"id": o["id"], "importer": o["importer"], "globals": o["globals"], "allowgo": o["allowgo"], "prog": o["prog"], "hist": o["hist"]},
